@@ -273,6 +273,14 @@ def translate_mempool():
     for pat, what in [(r'self\.current_batch_size = 0;', "`current_batch_size = 0` in seal"),
                       (r'self\.current_batch\.drain\(\.\.\)\.collect\(\)', "`current_batch.drain(..)` in seal")]:
         if not re.search(pat, sl): raise NotTranslatable("BatchMaker::seal: " + what + " not found")
+    # Processor: the batch is written to the store BEFORE its digest is announced (the models and
+    # C08/C11/C13 rely on that order; a digest that precedes its batch is a race nobody can observe
+    # on a single-threaded runtime, so the statement order itself is checked)
+    pr = norm(strip_comments(open(f"{REPO}/mempool/src/processor.rs").read()))
+    if not re.search(r'store\.write\(digest\.to_vec\(\), batch\)\.await; tx_digest\.send\(digest\)\.await', pr):
+        raise NotTranslatable("Processor: `store.write(digest, batch)` no longer directly precedes `tx_digest.send(digest)`")
+    if not re.search(r'let digest = Digest\(Sha512::digest\(&batch\)\.as_slice\(\)\[\.\.32\]\.try_into\(\)\.unwrap\(\)\);', pr):
+        raise NotTranslatable("Processor: the digest is no longer the first 32 bytes of SHA-512 of the batch bytes")
     qw = strip_comments(open(f"{REPO}/mempool/src/quorum_waiter.rs").read())
     body = fn_body(qw, "run")
     c = pick(conds(body, "if"), [r'total_stake', r'quorum_threshold'], "QuorumWaiter::run")
